@@ -43,6 +43,7 @@ func checkC07(w *World, r *Report) {
 	r.Rule("R07.8", "outgoing packets are numbered consecutively under the mutex", 1)
 	r.Rule("R07.9", "packets are retired only on a matching acknowledgement; the oldest is (re)sent first", 2)
 	r.Rule("R07.10", "a write succeeds only after its packets were acknowledged", 1)
+	r.Rule("R07.12", "the byte count of a write covers every chunk it queued", 1)
 	r.Rule("R07.11", "out-of-order packets are parked once: unseen, inside the window, remembered", 1)
 
 	fns := dnsPkgFuncs(w)
@@ -942,6 +943,73 @@ func c07Bookkeeping(w *World, r *Report) {
 			}
 		})
 		r.Check(bad == "" && n > 0, "R07.9", "method:(*streams/dns/util.OutQueue).NextChunk|oldest-first", w.Pos(fn.Pos()), "returns out[0], the oldest unacknowledged packet", bad)
+	}
+
+	// R07.12 Write: the byte count returned covers exactly the chunks handed to addChunk (a queued chunk is
+	// retransmitted until acknowledged even when its first transmission failed, so it must be reported as accepted)
+	if fn := w.SSAFunc(methodOf(outQ, "Write")); fn != nil {
+		add := methodOf(outQ, "addChunk")
+		isLenAdd := func(in ssa.Instruction) (ssa.Value, bool) {
+			bo, ok := in.(*ssa.BinOp)
+			if !ok || bo.Op != token.ADD {
+				return nil, false
+			}
+			for _, side := range []ssa.Value{bo.X, bo.Y} {
+				if c, ok := side.(*ssa.Call); ok {
+					if bi, ok := c.Call.Value.(*ssa.Builtin); ok && bi.Name() == "len" {
+						return c.Call.Args[0], true
+					}
+				}
+			}
+			return nil, false
+		}
+		bad := ""
+		npaths := 0
+		okp := enumPaths(fn, nil, func(in ssa.Instruction) bool {
+			if c, ok := in.(ssa.CallInstruction); ok && sCallee(c) == add {
+				return true
+			}
+			_, isAdd := isLenAdd(in)
+			return isAdd
+		}, nil, func(e pathExit) {
+			ret, ok := e.Last.(*ssa.Return)
+			if !ok {
+				return
+			}
+			var pending ssa.Value // data of a queued chunk not yet counted
+			var lastAdd ssa.Value
+			queued := 0
+			for _, ev := range e.State.Events {
+				if c, ok := ev.(ssa.CallInstruction); ok && sCallee(c) == add {
+					if pending != nil {
+						bad = fmt.Sprintf("%s: a second chunk is queued before the first was added to the byte count", w.Pos(ev.Pos()))
+					}
+					pending = e.State.Resolve(c.Common().Args[1])
+					queued++
+					continue
+				}
+				if d, ok := isLenAdd(ev); ok && pending != nil && e.State.Resolve(d) == pending {
+					pending = nil
+					lastAdd = ev.(ssa.Value)
+				}
+			}
+			if queued == 0 {
+				return
+			}
+			npaths++
+			if pending != nil {
+				bad = fmt.Sprintf("%s: Write can return without counting a chunk it has already queued: the chunk is still retransmitted and delivered, a writer that resumes after the short count sends it again (the peer reads it twice)", w.Pos(ret.Pos()))
+				return
+			}
+			if rv := e.State.Resolve(ret.Results[0]); lastAdd != nil && rv != lastAdd {
+				bad = fmt.Sprintf("%s: the count returned is not the running total of the queued chunks", w.Pos(ret.Pos()))
+			}
+		})
+		if !okp {
+			r.Undecided("R07.12", "method:(*streams/dns/util.OutQueue).Write|count", w.Pos(fn.Pos()), "path budget exceeded")
+		} else {
+			r.Check(bad == "" && npaths > 0, "R07.12", "method:(*streams/dns/util.OutQueue).Write|count", w.Pos(fn.Pos()), fmt.Sprintf("%d returning path(s) that queued chunks: the count covers every queued chunk", npaths), bad)
+		}
 	}
 
 	// R07.10 Write: a nil error is returned only as the result of waiting for the queue to drain
